@@ -59,8 +59,11 @@ class ActivateRequestPayload(base.RequestPayload):
         )
         tstream = BytearrayStream(istream.read(self.length))
 
-        self.unique_identifier = attributes.UniqueIdentifier()
-        self.unique_identifier.read(tstream, kmip_version=kmip_version)
+        # The unique identifier is optional in the request; if omitted, the
+        # server uses the ID placeholder.
+        if self.is_tag_next(enums.Tags.UNIQUE_IDENTIFIER, tstream):
+            self.unique_identifier = attributes.UniqueIdentifier()
+            self.unique_identifier.read(tstream, kmip_version=kmip_version)
 
         self.is_oversized(tstream)
         self.validate()
